@@ -57,6 +57,7 @@ func c15xFuncs(smallMod uint64, withSmall bool) []c15xFn {
 		{"fnv1a64", "fnv1a64", c15xFnv1a},
 		{"crc64", "crc64-ecma", func(data []byte) uint64 { return crc64.Checksum(data, c15xCrcTable) }},
 	}
+	fns = append(fns, c15xFn{"murmur3", "murmur3-wiping-its-input", c15WipingHash})
 	if withSmall {
 		name := fmt.Sprintf("fnv1a64%%%d", smallMod)
 		fns = append(fns, c15xFn{name, name, func(data []byte) uint64 { return c15xFnv1a(data) % smallMod }})
